@@ -25,6 +25,8 @@ def run(ctx: Ctx) -> None:
     t16_losses.run_invariances(ctx)
     t16_losses.run_wlcc(ctx)
     ctx.floor("T16.wlcc", 2)
+    t16_losses.run_rand_sample(ctx)
+    ctx.floor("T16.rand-sample", 4)
     with ctx.parallel():  # (each obligation builds its own environment)
         t16_losses.run_mi_symmetry(ctx)
     ctx.floor("T16.mi-symmetry", 12)
